@@ -12,6 +12,7 @@ pub mod c07;
 pub mod c08;
 pub mod c09;
 pub mod c10;
+pub mod c11;
 pub mod c12;
 pub mod c14;
 pub mod c15;
@@ -34,6 +35,7 @@ pub fn run(args: &Args, r: &mut Report) -> bool {
         "C08" => c08::run(args, r),
         "C09" => c09::run(args, r),
         "C10" => c10::run(args, r),
+        "C11" => c11::run(args, r),
         "C12" => c12::run(args, r),
         "C14" => c14::run(args, r),
         "C15" => c15::run(args, r),
